@@ -18,6 +18,8 @@ func main() {
 	switch os.Args[1] {
 	case "worker":
 		os.Exit(harness.WorkerMain(os.Args[2:]))
+	case "spec-selftest":
+		os.Exit(checks.SuiteSelfTestMain())
 	case "fresh-outcome":
 		os.Exit(checks.FreshOutcomeMain(os.Args[2:]))
 	case "run":
